@@ -36,6 +36,21 @@ impl<F: Future> Future for Perturbed<F> {
             return Poll::Pending;
         }
         with(|w| w.il_hash = world::mix(w.il_hash, task));
+        // cooperative-budget perturbation: spend all but `left` units of tokio's per-poll budget up front,
+        // so that the (left+1)-th operation on a tokio resource inside this poll is forced to yield —
+        // exactly what the runtime does to a busy task, placed by the seed. Always legal.
+        let budget_ppm = with(|w| w.knobs.budget_ppm).unwrap_or(0);
+        let v = decide("sched.budget", task, 0, |r| if (r % 1_000_000) < budget_ppm as u64 { 1 + (r >> 24) % 24 } else { 0 });
+        if v > 0 {
+            world::fault_fired("schedule.budget_exhaustion");
+            let burn = 128u64.saturating_sub(v - 1);
+            for _ in 0..burn {
+                match ::tokio::task::coop::poll_proceed(cx) {
+                    Poll::Ready(r) => r.made_progress(),
+                    Poll::Pending => break,
+                }
+            }
+        }
         self.inner.as_mut().poll(cx)
     }
 }
